@@ -14,7 +14,8 @@ RULE = ("every component constructor x its parameter palette (including 0, infin
         "{1e-3, 1/2} x position (first/middle/last) among two bystanders taken from every other kind x ground "
         "{absent, first, last}; each transformation is compared branch by branch with the reference translation; "
         "states = distinct (circuit, w, resolution) inputs, transitions = transform_circuit calls judged; "
-        "non-trivial = the subject component is not a ground")
+        "non-trivial = the subject component is not a ground"
+        ' Additions: extreme parameter values (1e-15 .. 1e12); zero-amplitude harmonics of lossy periodic sources keep their immittance; the same description with NumPy-scalar and int-typed numbers.')
 ASSUMPTIONS = ["float cos/sin within 1 ulp", "the closed-form harmonics of the reference waveforms (independently validated against quadrature by C08)"]
 EXPLANATION = "direct exploration of the real circuit-to-network translation"
 
